@@ -103,7 +103,11 @@ def rd_disk(tk):
     if k == 'D1':
         inner = tk.f(); pz = tk.v(); pm = tk.f(); xf = rd_optchain(tk)
     P.xf = xf
-    P.legal = finite(c, n, r, inner, pm) and (pz is None or finite(pz)) and norm(n) > 1e-9 and r > inner >= 0 and 0 <= pm <= 360 and (xf is None or xf.ok)
+    # the crate builds the disk's frame with Vector3D::get_perpendicular, which treats components below 100*EPSILON as zero
+    # (2.2e-14 in f64, 1.2e-5 in the f32 build): a normal that short is not a legal argument
+    from . import common as _C
+    nmin = 1e-9 if _C.FMT.name != 'f32' else 1e-3
+    P.legal = finite(c, n, r, inner, pm) and (pz is None or finite(pz)) and norm(n) > nmin and r > inner >= 0 and 0 <= pm <= 360 and (xf is None or xf.ok)
     if P.legal:
         nh = unit(n)
         if pz is not None:
@@ -191,7 +195,16 @@ def surface_residual(P, X, tol):
         u = (d22 * r1 - d12 * r2) / det; v = (d11 * r2 - d12 * r1) / det
         sz = max(math.sqrt(d11), math.sqrt(d22))
         m = tol / sz
-        if u < -m or v < -m or u + v > 1 + m: return 'outside the triangle (u=%.9g v=%.9g)' % (u, v)
+        if u < -m or v < -m or u + v > 1 + m:
+            # a sliver (nearly collinear vertices) makes the barycentric solve ill-conditioned by kappa = |e1||e2| / |e1 x e2|, for
+            # the crate as for this oracle: judge the Euclidean distance from X to the triangle against tol * kappa instead
+            kappa = math.sqrt(d11) * math.sqrt(d22) / nn
+            def dseg(p, q):
+                pq = vsub(q, p); t = max(0.0, min(1.0, dot(vsub(X, p), pq) / max(dot(pq, pq), 1e-300)))
+                return norm(vsub(X, vadd(p, vmul(pq, t))))
+            dist = min(dseg(a, b), dseg(b, c), dseg(c, a))
+            if dist > tol * max(1.0, kappa):
+                return 'outside the triangle (u=%.9g v=%.9g, %.3g from it; conditioning %.3g)' % (u, v, dist, kappa)
         return None
     x = to_local(P, X)
     if k == 'disk':
